@@ -80,7 +80,7 @@ func (r *Run) yield(point string, c *websocket.Conn) {
 		}
 		r.S.Unlock()
 		if busy {
-			r.S.ParkE("y.closeMu.wait@"+name, func() bool { return !y.held[c] }, nil)
+			r.S.ParkE("y.closeMu.wait@"+name+"/"+r.S.WhoAmI(), func() bool { return !y.held[c] }, nil)
 			r.S.Lock()
 			y.held[c] = true
 			r.S.Unlock()
@@ -91,14 +91,11 @@ func (r *Run) yield(point string, c *websocket.Conn) {
 	if !y.enabled[point] {
 		return
 	}
-	if r.Tape.Draw(100) >= y.pct {
-		return
-	}
 	r.S.Lock()
 	name := r.connName(c)
 	r.S.Unlock()
 	r.S.Count("yield." + point)
-	r.S.Park("y." + point + "@" + name)
+	r.S.ParkCoin("y."+point+"@"+name+"/"+r.S.WhoAmI(), y.pct)
 }
 
 func (r *Run) note(point string, c *websocket.Conn) {
